@@ -144,8 +144,9 @@ class Builder:
             b.fnspecs[fs.cname] = fs
             for k in fs.loops:
                 if k >= len(f.loops):
-                    raise ExtractError('%s: loop contract for loop %d but %s has %d loops' % (
-                        u.name, k, fs.qual, len(f.loops)))
+                    # the function has fewer loops than the contract file expects (its loop structure changed): the
+                    # surplus loop contract is simply unused -- it adds no assumption; the remaining obligations decide
+                    b.dropped.append((fs.cname, 'loop contract for loop %d is unused: the function has %d loops' % (k, len(f.loops)), f.line))
             b.dropped += [(fs.cname,) + tuple(x) for x in f.dropped]
             b.stubs |= f.stubs
         b.opaque = sorted(tr.opaque_decls)
